@@ -549,7 +549,7 @@ func main() {
 	if err != nil {
 		panic(err)
 	}
-	quirks := lib.ProbeQuirks()
+	quirks := lib.ProbeQuirks() + probeMkdirExist(self)
 	emit := func(j *job) {
 		out.Case(j.id, j.sc.shard+",q"+quirks, j.sc.preText(), j.sc.op, lib.Hex(j.sc.key), j.sc.chunkHex(), j.fault, j.obs)
 	}
@@ -650,6 +650,9 @@ func main() {
 			if name == "renameat" {
 				errs = append(errs, "enoent")
 			}
+			if name == "mkdirat" {
+				errs = append(errs, "eexist") // what the loser of two racing first writers sees
+			}
 			for _, e := range errs {
 				jobs = append(jobs, &job{id: fmt.Sprintf("s%d.%s%d", i, e, mj), sc: sc, fault: fmt.Sprintf("err:%s@%d", e, mj),
 					inject: fmt.Sprintf("%s:error=%s:when=%d", name, strings.ToUpper(e), when)})
@@ -673,6 +676,26 @@ func main() {
 		sh := []string{"r12", "r122", "r133"}[i%3]
 		runConc(out, fmt.Sprintf("conc%d", i), sh+",q"+quirks, 6, 5+i%3, rounds)
 	}
+}
+
+// probeMkdirExist: does a Put fail when os.Mkdir of the shard directory reports EEXIST (another
+// writer made it first)?  "1" = yes (the tree as pinned), "0" = haveDir accepts an existing directory.
+func probeMkdirExist(self string) string {
+	sc := &scenario{shard: "r12", op: "put", key: "probekey", chunks: []string{"x"}}
+	_, evs, before := runOne(self, sc, "")
+	for j := range evs {
+		if evs[j].name == "mkdirat" {
+			name, when := whenFor(evs, before, j)
+			obs, _, _ := runOne(self, sc, fmt.Sprintf("%s:error=EEXIST:when=%d", name, when))
+			// pinned: the put fails with that EEXIST. Repaired: haveDir accepts it and the rename is
+			// tried again (and, the directory not really being there under injection, reports ENOENT).
+			if strings.HasPrefix(obs, "e:eexist|") {
+				return "1"
+			}
+			return "0"
+		}
+	}
+	return "1"
 }
 
 func parallel(n int, f func(i int)) {
